@@ -29,39 +29,33 @@ def scheds_of(res):
 
 def run(ctx):
     th = ctx.thorough()
+    if not th:
+        # short TLC runs: JVM start-up dominates on a loaded machine; C1-only JIT and few GC threads start faster
+        os.environ["JAVA_TOOL_OPTIONS"] = (os.environ.get("JAVA_TOOL_OPTIONS", "") + " -XX:TieredStopAtLevel=1 -XX:ParallelGCThreads=2").strip()
     jobs = {}
-    with cf.ThreadPoolExecutor(max_workers=4 if th else 8) as ex:
-        # exhaustive design runs + negative twins
-        for c in (["design_small", "design"] if th else ["design_small"]):
-            jobs["design:" + c] = ex.submit(ctx.tlc, "BlobLRUMC", cfg="BlobLRU_%s.cfg" % c, workers=8 if th else 4,
-                                            name="design_" + c, timeout=3000)
-        for c in TWINS:
-            jobs["twin:" + c] = ex.submit(ctx.tlc, "BlobLRUMC", cfg="BlobLRU_%s.cfg" % c, workers=2, name=c,
-                                          timeout=900, allow_violation=True)
-        # schedules of the scheduler view: exhaustive for small bounds, sampled (seeded) for larger ones
-        for c in (["schedA", "schedB", "schedC"] if th else ["schedB"]):
-            jobs["sched:" + c] = ex.submit(ctx.tlc, "BlobLRUMC", cfg="BlobLRU_%s.cfg" % c, workers=4,
-                                           name="gen_" + c, timeout=3000)
-        jobs["sim:schedS"] = ex.submit(ctx.tlc, "BlobLRUMC", cfg="BlobLRU_schedS.cfg", workers=4, name="gen_schedS",
-                                       simulate="num=%d" % (5000 if th else 300), depth=100, deadlock=False,
-                                       extra=["-seed", str(ctx.seed)], timeout=3000)
-        res = {k: f.result() for k, f in jobs.items()}
-    design = []
-    for k, r in res.items():
-        kind, c = k.split(":")
-        if kind == "design":
-            design.append({"cfg": c, "states": r["states"], "transitions": r["transitions"], "result": "holds"})
-        elif kind == "twin":
-            if TWINS[c] not in r["violated"]:
-                raise verif.MachineryError("negative twin %s was not refuted (expected %s, got %s)" % (c, TWINS[c], r["violated"]))
-            design.append({"cfg": c, "states": r["states"], "transitions": r["transitions"], "result": "refuted: " + TWINS[c]})
+    ex = cf.ThreadPoolExecutor(max_workers=4 if th else 8)
+    # schedules of the scheduler view: exhaustive for small bounds, sampled (seeded) for larger ones
+    for c in (["schedA", "schedB", "schedC"] if th else ["schedB"]):
+        jobs["sched:" + c] = ex.submit(ctx.tlc, "BlobLRUMC", cfg="BlobLRU_%s.cfg" % c, workers=4 if th else 2,
+                                       name="gen_" + c, timeout=3000, heap="4g" if th else "2g")
+    jobs["sim:schedS"] = ex.submit(ctx.tlc, "BlobLRUMC", cfg="BlobLRU_schedS.cfg", workers=4 if th else 2, name="gen_schedS", heap="2g",
+                                   simulate="num=%d" % (5000 if th else 150), depth=100, deadlock=False,
+                                   extra=["-seed", str(ctx.seed)], timeout=3000)
+    # exhaustive design runs + negative twins (independent of /repo; they run while the replay is going on)
+    for c in (["design_small", "design"] if th else ["design_quick"]):
+        jobs["design:" + c] = ex.submit(ctx.tlc, "BlobLRUMC", cfg="BlobLRU_%s.cfg" % c, workers=8 if th else 3,
+                                        name="design_" + c, timeout=3000, heap="4g" if th else "2g")
+    for c in TWINS:
+        jobs["twin:" + c] = ex.submit(ctx.tlc, "BlobLRUMC", cfg="BlobLRU_%s.cfg" % c, workers=1, name=c,
+                                      timeout=900, allow_violation=True, heap="1g")
     vec = os.path.join(ctx.work, "schedules.ndjson")
     nsched = {}
     with open(vec, "w") as fh:
-        for k, r in res.items():
+        for k, f in jobs.items():
             kind, c = k.split(":")
             if kind not in ("sched", "sim"):
                 continue
+            r = f.result()
             cost, size = cfg_consts("BlobLRU_%s.cfg" % c)
             ss = scheds_of(r)
             if not ss:
@@ -102,12 +96,12 @@ def run(ctx):
         parts = {}
         for op in ("RecBudget", "RecAccounting", "RecResults", "RecEntries", "RecReturns"):
             wrapper = ("---- MODULE C47Why ----\nEXTENDS BlobLRUProps, Json, TLC\nRecs == ndJsonDeserialize(\"recs.ndjson\")\n"
-                       "ASSUME PrintT(<<\"WHY\", {k \\in 1..Len(Recs) : ~%s(Recs[k])}>>)\nVARIABLE x\nInit == x = 0\nNext == x' = x\n"
+                       "ASSUME PrintT(\"WHY \" \\o ToString({k \\in 1..Len(Recs) : ~%s(Recs[k])}))\nVARIABLE x\nInit == x = 0\nNext == x' = x\n"
                        "Spec == Init /\\ [][Next]_x\n====\n" % op)
             r = ctx.tlc("C47Why", cfg="C47Why.cfg", files={"C47Why.tla": wrapper, "C47Why.cfg": "SPECIFICATION Spec\n",
                                                             "recs.ndjson": "\n".join(sub) + "\n"},
                         workers=1, deadlock=False, name="why_" + op)
-            for v in ctx.tlc_printed(r, "WHY"):
+            for v in re.findall(r'^"WHY (.*)"\s*$', r["out"], re.M):
                 for k in re.findall(r"\d+", v):
                     parts.setdefault(int(k), []).append(op)
         names = {"RecBudget": "over-budget", "RecAccounting": "accounting", "RecResults": "wrong-result",
@@ -118,6 +112,18 @@ def run(ctx):
             ctx.violate("c47/%s/%s" % (r["mode"], "+".join(why)),
                         "real bloblru.Cache run rejected by BlobLRUProps!RecOK (%s): mode=%s src=%s sched=%s size=%d" % (
                             ",".join(why), r["mode"], r["src"], r["sched"], r["size"]), r)
+    design = []
+    for k, f in jobs.items():
+        kind, c = k.split(":")
+        if kind == "design":
+            r = f.result()
+            design.append({"cfg": c, "states": r["states"], "transitions": r["transitions"], "result": "holds"})
+        elif kind == "twin":
+            r = f.result()
+            if TWINS[c] not in r["violated"]:
+                raise verif.MachineryError("negative twin %s was not refuted (expected %s, got %s)" % (c, TWINS[c], r["violated"]))
+            design.append({"cfg": c, "states": r["states"], "transitions": r["transitions"], "result": "refuted: " + TWINS[c]})
+    ex.shutdown()
     gres = ctx.go_results[-1] if ctx.go_results else {}
     dstates = sum(d["states"] for d in design if d["result"] == "holds")
     dtrans = sum(d["transitions"] for d in design if d["result"] == "holds")
